@@ -780,7 +780,10 @@ def _prepare_results(results, data, debug):
     if debug:
         results = pd.DataFrame({**data, **results})
     else:
-        results = pd.DataFrame(results)
+        # Targets that depend on parameters only are scalars; give the frame its rows
+        # explicitly so that they are broadcast even if no other target is requested.
+        n_rows = len(next(iter(data.values())))
+        results = pd.DataFrame(results, index=pd.RangeIndex(n_rows))
     results = _reorder_columns(results)
 
     return results
